@@ -1798,8 +1798,10 @@ namespace jsoncons {
                         }
                         case json_storage_kind::float64:
                         {
-                            auto r = cast<double_storage>().value() - rhs.cast<double_storage>().value();
-                            return r == 0 ? 0 : (r < 0.0 ? -1 : 1);
+                            // not by subtraction: inf - inf is NaN
+                            const double val1 = cast<double_storage>().value();
+                            const double val2 = rhs.cast<double_storage>().value();
+                            return val1 == val2 ? 0 : (val1 < val2 ? -1 : 1);
                         }
                         case json_storage_kind::const_json_ref:
                             return compare(rhs.cast<const_json_ref_storage>().value());
@@ -1846,8 +1848,8 @@ namespace jsoncons {
                             }
                             case json_storage_kind::float64:
                             {
-                                auto r = val1 - rhs.cast<double_storage>().value();
-                                return r == 0 ? 0 : (r < 0.0 ? -1 : 1);
+                                const double val2 = rhs.cast<double_storage>().value();
+                                return val1 == val2 ? 0 : (val1 < val2 ? -1 : 1);
                             }
                             case json_storage_kind::const_json_ref:
                                 return compare(rhs.cast<const_json_ref_storage>().value());
